@@ -7,6 +7,10 @@
 //	                   from that checkpoint.
 //	mode "operator"    the same behaviours through a real operator.Operator
 //	                   (watermark / keyed events in, handler calls out).
+//	mode "opbatch"     behaviours of spec/TimersOp.tla through a real operator.Operator
+//	                   with event batches of 1..3 items, a manually fired batch
+//	                   timer, barriers of several runners with traffic in
+//	                   between, crash/restore and re-deployment (opbatch.go).
 //	mode "watermarker" behaviours of Watermark.tla on the real wmark.Watermarker.
 //
 // Verdicts are decided by what the property demands (carried by every step:
@@ -409,8 +413,12 @@ func main() {
 		prop = "C10"
 	}
 	var c *config
-	if mode == "sourcerunner" {
-		runSourceRunners(in, res)
+	if mode == "sourcerunner" || mode == "srsched" {
+		if mode == "srsched" {
+			runSchedules(in, res)
+		} else {
+			runSourceRunners(in, res)
+		}
 		if err := mbt.WriteResult(os.Args[2], res); err != nil {
 			fmt.Fprintln(os.Stderr, err)
 			os.Exit(2)
@@ -431,6 +439,8 @@ func main() {
 			err = replayRegistry(bi, beh, c, prop, res)
 		case "operator":
 			err = replayOperator(bi, beh, c, prop, res)
+		case "opbatch":
+			err = replayOpBatch(bi, beh, c, in, prop, res)
 		case "watermarker":
 			err = replayWatermarker(bi, beh, in, res)
 		default:
